@@ -57,6 +57,8 @@ type Writer struct {
 // 内存占用与嵌套深度成平方关系，自引用的消息则会让发送方无限递归直至栈溢出
 const MaxMessageNesting = 32
 
+// maxReflectDepth 限制反射写入的递归深度：自引用（成环）的值会无限递归直至栈溢出，而栈溢出是无法 recover 的致命错误
+const maxReflectDepth = 1000
 
 // NewWriter 创建一个新的二进制写入器
 //
@@ -525,12 +527,22 @@ func (w *Writer) Write(v interface{}) *Writer {
 //   - 结构体：按字段顺序递归写入所有可导出字段
 //   - 指针：自动解引用，nil 指针会返回错误
 func (w *Writer) writeReflect(v interface{}) error {
+	return w.writeReflectAt(v, 0)
+}
+
+func (w *Writer) writeReflectAt(v interface{}, depth int) error {
+	if depth > maxReflectDepth {
+		return fmt.Errorf("value nested deeper than %d levels (self-referential?): %T", maxReflectDepth, v)
+	}
 	rv := reflect.ValueOf(v)
 
 	// 处理指针类型，自动解引用
-	for rv.Kind() == reflect.Ptr {
+	for hops := 0; rv.Kind() == reflect.Ptr; hops++ {
 		if rv.IsNil() {
 			return fmt.Errorf("cannot write nil pointer: %T", v)
+		}
+		if hops > maxReflectDepth {
+			return fmt.Errorf("pointer chain longer than %d (self-referential?): %T", maxReflectDepth, v)
 		}
 		rv = rv.Elem()
 	}
@@ -542,7 +554,7 @@ func (w *Writer) writeReflect(v interface{}) error {
 
 		// 递归写入每个元素
 		for i := 0; i < length; i++ {
-			if err := w.writeReflect(rv.Index(i).Interface()); err != nil {
+			if err := w.writeReflectAt(rv.Index(i).Interface(), depth+1); err != nil {
 				return err
 			}
 		}
@@ -555,7 +567,7 @@ func (w *Writer) writeReflect(v interface{}) error {
 			field := typ.Field(i)
 			// 只处理可导出的字段（PkgPath 为空表示可导出）
 			if field.PkgPath == "" {
-				if err := w.writeReflect(rv.Field(i).Interface()); err != nil {
+				if err := w.writeReflectAt(rv.Field(i).Interface(), depth+1); err != nil {
 					return err
 				}
 			}
